@@ -141,6 +141,20 @@ def validate(data):
                 trees[n] = ET.fromstring(b)
             except ET.ParseError as e:
                 errors.append("%s: not well-formed: %s" % (n, e))
+    # text whose leading or trailing blanks matter must say so: consumers (Excel among them) are entitled to
+    # drop them from a <t> without xml:space="preserve"
+    XML_SPACE = "{http://www.w3.org/XML/1998/namespace}space"
+    for n, t in trees.items():
+        if not (n.endswith("sharedStrings.xml") or "/worksheets/" in n or "/comments" in n):
+            continue
+        bad_t = 0
+        for el in t.iter():
+            if local(el.tag) == "t" and ns_of(el.tag) == NS_MAIN:
+                tx = el.text or ""
+                if tx != tx.strip(" \t\r\n") and el.get(XML_SPACE) != "preserve":
+                    bad_t += 1
+        if bad_t:
+            errors.append("%s: %d <t> element(s) with leading/trailing blanks lack xml:space=\"preserve\"" % (n, bad_t))
     # content types
     ct = trees.get("[Content_Types].xml")
     if ct is None:
